@@ -58,6 +58,21 @@ type c18Ev struct {
 	// Hold (kind 4 only): the goroutine of this call is held between reading the clock for
 	// AllowN and calling AllowN until `Hold` later calls have completed (0 = not held)
 	Hold int `json:"hold,omitempty"`
+	// R: the route the request takes, i.e. the chain of RateLimiter instances in front of the handler:
+	// 0 = "/" [store 0]; 1 = "/g/x" [store 0 on the group, store 1 on the route]; 2 = "/b" [store 1];
+	// 3 = "/ba" [store 1, store 0] (both on the route); 4 = "/aa" [store 0, store 0] (two instances
+	// sharing one store).  Direct calls: 0 = store 0, 2 = store 1.
+	R int `json:"r,omitempty"`
+}
+
+// c18SP: the parameters of one RateLimiterMemoryStore
+type c18SP struct {
+	RateNum   int64 `json:"rate_num"`
+	RateDen   int64 `json:"rate_den"`
+	Burst     int   `json:"burst"`      // as configured, 0 = default
+	ExpiresIn int64 `json:"expires_in"` // ns as configured, 0 = default
+	// Simple: built with NewRateLimiterMemoryStore(rate) (Burst and ExpiresIn must be 0)
+	Simple bool `json:"simple,omitempty"`
 }
 
 type c18Case struct {
@@ -71,6 +86,18 @@ type c18Case struct {
 	// CustomHandlers: 0 = default Deny/ErrorHandler; 1 = custom handlers that write their own
 	// 429 / 403 response and return nil; 2 = custom handlers that return an *echo.HTTPError
 	CustomHandlers int `json:"custom_handlers,omitempty"`
+	// Simple: store 0 is built with NewRateLimiterMemoryStore(rate) (Burst and ExpiresIn must be 0)
+	Simple bool `json:"simple,omitempty"`
+	// S2: a second store in the same process (routes 1-3)
+	S2 *c18SP `json:"s2,omitempty"`
+	// Ctor: how the middleware instances are built: 0 = RateLimiterWithConfig with a Skipper
+	// (X-Skip header); 1 = RateLimiter(store) (needs default_extractor, no custom handlers, no
+	// skip / extractor-error events); 2 = RateLimiterWithConfig with a nil Skipper (no skip events)
+	Ctor int `json:"ctor,omitempty"`
+	// Before: the instances are configured with a BeforeFunc (counted)
+	Before bool `json:"before,omitempty"`
+	// NilStore: RateLimiterWithConfig without a Store: the constructor must panic (oracle only)
+	NilStore bool `json:"nil_store,omitempty"`
 	// Stress (frozen clock): StressG goroutines per identifier call Store.Allow at the same
 	// time for StressIDs fresh identifiers; oracle only (at most burst admissions each)
 	StressIDs int `json:"stress_ids,omitempty"`
@@ -82,24 +109,76 @@ type c18Case struct {
 	Evs  []c18Ev `json:"evs"`
 }
 
-func (c *c18Case) effBurst() int64 {
-	if c.Burst == 0 {
-		return c.RateNum / c.RateDen
+func (p c18SP) effBurst() int64 {
+	if p.Burst == 0 {
+		return p.RateNum / p.RateDen
 	}
-	return int64(c.Burst)
+	return int64(p.Burst)
 }
 
-func (c *c18Case) effExpires() int64 {
-	if c.ExpiresIn == 0 {
+func (p c18SP) effExpires() int64 {
+	if p.ExpiresIn == 0 {
 		return 180 * c18Second
 	}
-	return c.ExpiresIn
+	return p.ExpiresIn
 }
 
 // ExpiresIn*rate >= burst
-func (c *c18Case) hexp() bool {
+func (p c18SP) hexp() bool {
 	// expires(ns) * num >= burst * den * 1e9
-	return !mulLess(uint64(c.effExpires()), uint64(c.RateNum), uint64(c.effBurst()), uint64(c.RateDen*c18Second))
+	return !mulLess(uint64(p.effExpires()), uint64(p.RateNum), uint64(p.effBurst()), uint64(p.RateDen*c18Second))
+}
+
+func (p c18SP) valid() bool {
+	return p.RateDen > 0 && p.RateNum >= 0 && p.Burst >= 0 && p.ExpiresIn >= 0 && !(p.Simple && (p.Burst != 0 || p.ExpiresIn != 0))
+}
+
+func (p c18SP) build() *middleware.RateLimiterMemoryStore {
+	lim := rate.Limit(float64(p.RateNum) / float64(p.RateDen))
+	if p.Simple {
+		return middleware.NewRateLimiterMemoryStore(lim)
+	}
+	return middleware.NewRateLimiterMemoryStoreWithConfig(middleware.RateLimiterMemoryStoreConfig{
+		Rate: lim, Burst: p.Burst, ExpiresIn: time.Duration(p.ExpiresIn),
+	})
+}
+
+// sp(0): the first store (the case's own fields)
+func (c *c18Case) sp0() c18SP {
+	return c18SP{RateNum: c.RateNum, RateDen: c.RateDen, Burst: c.Burst, ExpiresIn: c.ExpiresIn, Simple: c.Simple}
+}
+
+func (c *c18Case) stores() []c18SP {
+	out := []c18SP{c.sp0()}
+	if c.S2 != nil {
+		out = append(out, *c.S2)
+	}
+	return out
+}
+
+func (c *c18Case) effBurst() int64   { return c.sp0().effBurst() }
+func (c *c18Case) effExpires() int64 { return c.sp0().effExpires() }
+func (c *c18Case) hexp() bool        { return c.sp0().hexp() }
+
+var c18Chains = [][]int{{0}, {0, 1}, {1}, {1, 0}, {0, 0}}
+
+// the chain of store indices of an event; nil = not a valid route for this case / kind
+func (c *c18Case) chain(ev c18Ev) []int {
+	if ev.R < 0 || ev.R >= len(c18Chains) {
+		return nil
+	}
+	ch := c18Chains[ev.R]
+	if ev.Kind == c18Direct || ev.Kind == c18DirectAt {
+		if ev.R != 0 && ev.R != 2 {
+			return nil
+		}
+	}
+	for _, k := range ch {
+		if k == 1 && c.S2 == nil {
+			return nil
+		}
+	}
+	return ch
 }
 
 // a*b < c*d on 128 bits
@@ -111,91 +190,131 @@ func mulLess(a, b, c, d uint64) bool {
 
 var c18Base = time.Unix(1700000000, 0)
 
+// c18Call: one Store.Allow call as the recording wrapper of a store saw it
+type c18Call struct {
+	store int
+	ev    int // index of the event that made the call
+	id    string
+	t     int64
+	ok    bool
+}
+
 type c18RecStore struct {
-	inner  *middleware.RateLimiterMemoryStore
-	calls  int
-	result bool
+	k     int
+	inner *middleware.RateLimiterMemoryStore
+	d     *c18Driver
 }
 
 func (s *c18RecStore) Allow(id string) (bool, error) {
-	s.calls++
 	ok, err := s.inner.Allow(id)
-	s.result = ok
+	s.d.calls = append(s.d.calls, c18Call{store: s.k, ev: s.d.ev, id: id, t: s.d.cur, ok: ok})
+	if err != nil {
+		s.d.bad = "Allow returned an error"
+	}
 	return ok, err
 }
 
-type c18Obs struct {
-	ran      bool
-	status   int
-	admitted bool // Store.Allow returned true (only meaningful when touched)
-	touched  bool // the store was called
-	bad      string
+type c18Driver struct {
+	cur    int64
+	ev     int
+	calls  []c18Call
+	before int
+	bad    string
 }
+
+type c18Obs struct {
+	ran    bool
+	status int
+	before int       // BeforeFunc calls during the event
+	calls  []c18Call // Store.Allow calls during the event, in order
+	bad    string
+}
+
+// admitted: the decision of the only store call of a direct event / single-limiter request
+func (o c18Obs) admitted() bool { return len(o.calls) > 0 && o.calls[len(o.calls)-1].ok }
 
 var errC18Extract = errors.New("no identifier")
 
-// c18Drive runs the events against a fresh real store and returns one observation per event.
+// c18Drive runs the events against fresh real stores and returns one observation per event.
 func c18Drive(c *c18Case, evs []c18Ev) (obs []c18Obs, panicked string) {
 	defer func() {
 		if r := recover(); r != nil {
 			panicked = fmt.Sprint(r)
 		}
 	}()
-	st := middleware.NewRateLimiterMemoryStoreWithConfig(middleware.RateLimiterMemoryStoreConfig{
-		Rate:      rate.Limit(float64(c.RateNum) / float64(c.RateDen)),
-		Burst:     c.Burst,
-		ExpiresIn: time.Duration(c.ExpiresIn),
-	})
-	cur := c.T0
-	middleware.VerifSetClock(st, func() time.Time { return c18Base.Add(time.Duration(cur)) })
-	rec := &c18RecStore{inner: st}
-	cfg := middleware.RateLimiterConfig{
-		Store:   rec,
-		Skipper: func(ctx echo.Context) bool { return ctx.Request().Header.Get("X-Skip") != "" },
+	d := &c18Driver{cur: c.T0}
+	var recs []*c18RecStore
+	for k, sp := range c.stores() {
+		st := sp.build()
+		middleware.VerifSetClock(st, func() time.Time { return c18Base.Add(time.Duration(d.cur)) })
+		recs = append(recs, &c18RecStore{k: k, inner: st, d: d})
 	}
-	switch c.CustomHandlers {
-	case 1: // write the response, return nil
-		cfg.DenyHandler = func(ctx echo.Context, identifier string, err error) error {
-			return ctx.JSON(http.StatusTooManyRequests, map[string]string{"message": "slow down", "id": identifier})
+	// mk: a new RateLimiter instance on store k (every registration gets its own instance)
+	mk := func(k int) echo.MiddlewareFunc {
+		if c.Ctor == 1 {
+			return middleware.RateLimiter(recs[k])
 		}
-		cfg.ErrorHandler = func(ctx echo.Context, err error) error {
-			return ctx.JSON(http.StatusForbidden, map[string]string{"message": "who are you"})
+		cfg := middleware.RateLimiterConfig{Store: recs[k]}
+		if c.Ctor == 0 {
+			cfg.Skipper = func(ctx echo.Context) bool { return ctx.Request().Header.Get("X-Skip") != "" }
 		}
-	case 2: // return an error of their own
-		cfg.DenyHandler = func(ctx echo.Context, identifier string, err error) error {
-			return echo.NewHTTPError(http.StatusTooManyRequests, "custom deny for "+identifier)
+		if c.Before {
+			cfg.BeforeFunc = func(ctx echo.Context) { d.before++ }
 		}
-		cfg.ErrorHandler = func(ctx echo.Context, err error) error {
-			return echo.NewHTTPError(http.StatusForbidden, "custom extractor error").SetInternal(err)
-		}
-	}
-	if !c.DefaultID {
-		cfg.IdentifierExtractor = func(ctx echo.Context) (string, error) {
-			if ctx.Request().Header.Get("X-Err") != "" {
-				return "", errC18Extract
+		switch c.CustomHandlers {
+		case 1: // write the response, return nil
+			cfg.DenyHandler = func(ctx echo.Context, identifier string, err error) error {
+				return ctx.JSON(http.StatusTooManyRequests, map[string]string{"message": "slow down", "id": identifier})
 			}
-			return ctx.Request().Header.Get("X-Id"), nil
+			cfg.ErrorHandler = func(ctx echo.Context, err error) error {
+				return ctx.JSON(http.StatusForbidden, map[string]string{"message": "who are you"})
+			}
+		case 2: // return an error of their own
+			cfg.DenyHandler = func(ctx echo.Context, identifier string, err error) error {
+				return echo.NewHTTPError(http.StatusTooManyRequests, "custom deny for "+identifier)
+			}
+			cfg.ErrorHandler = func(ctx echo.Context, err error) error {
+				return echo.NewHTTPError(http.StatusForbidden, "custom extractor error").SetInternal(err)
+			}
 		}
+		if !c.DefaultID {
+			cfg.IdentifierExtractor = func(ctx echo.Context) (string, error) {
+				if ctx.Request().Header.Get("X-Err") != "" {
+					return "", errC18Extract
+				}
+				return ctx.Request().Header.Get("X-Id"), nil
+			}
+		}
+		return middleware.RateLimiterWithConfig(cfg)
 	}
 	e := echo.New()
 	ran := false
-	e.GET("/", func(ctx echo.Context) error {
+	h := func(ctx echo.Context) error {
 		ran = true
 		return ctx.String(http.StatusOK, "ok")
-	}, middleware.RateLimiterWithConfig(cfg))
-	for _, ev := range evs {
-		cur = ev.T
+	}
+	paths := []string{"/", "/g/x", "/b", "/ba", "/aa"}
+	e.GET("/", h, mk(0))
+	e.GET("/aa", h, mk(0), mk(0))
+	if len(recs) > 1 {
+		g := e.Group("/g", mk(0)) // the coarse limiter on the group, the strict one on the route
+		g.GET("/x", h, mk(1))
+		e.GET("/b", h, mk(1))
+		e.GET("/ba", h, mk(1), mk(0))
+	}
+	for i, ev := range evs {
+		d.cur, d.ev, d.calls, d.before, d.bad = ev.T, i, nil, 0, ""
 		var o c18Obs
 		if ev.Kind == c18Direct {
-			ok, err := st.Allow(ev.ID)
-			o = c18Obs{ran: ok, status: 0, admitted: ok, touched: true}
-			if err != nil {
-				o.bad = "Allow returned an error"
+			k := 0
+			if ev.R == 2 {
+				k = 1
 			}
+			ok, _ := recs[k].Allow(ev.ID)
+			o = c18Obs{ran: ok, status: 0}
 		} else {
 			ran = false
-			rec.calls = 0
-			req := httptest.NewRequest(http.MethodGet, "/", nil)
+			req := httptest.NewRequest(http.MethodGet, paths[ev.R], nil)
 			if c.DefaultID {
 				req.RemoteAddr = ev.ID + ":4321"
 			} else {
@@ -209,14 +328,30 @@ func c18Drive(c *c18Case, evs []c18Ev) (obs []c18Obs, panicked string) {
 			}
 			w := httptest.NewRecorder()
 			e.ServeHTTP(w, req)
-			o = c18Obs{ran: ran, status: w.Code, touched: rec.calls > 0, admitted: rec.calls > 0 && rec.result}
-			if rec.calls > 1 {
-				o.bad = fmt.Sprintf("Store.Allow called %d times for one request", rec.calls)
-			}
+			o = c18Obs{ran: ran, status: w.Code}
 		}
+		o.calls, o.before, o.bad = d.calls, d.before, d.bad
 		obs = append(obs, o)
 	}
 	return obs, ""
+}
+
+// c18Replay: the decisions a fresh real store with parameters sp takes for the given calls alone
+func c18Replay(sp c18SP, t0 int64, calls []c18Call) (oks []bool, panicked string) {
+	defer func() {
+		if r := recover(); r != nil {
+			panicked = fmt.Sprint(r)
+		}
+	}()
+	st := sp.build()
+	cur := t0
+	middleware.VerifSetClock(st, func() time.Time { return c18Base.Add(time.Duration(cur)) })
+	for _, cl := range calls {
+		cur = cl.t
+		ok, _ := st.Allow(cl.id)
+		oks = append(oks, ok)
+	}
+	return oks, ""
 }
 
 // ---------- frozen-clock stress (concurrent first requests) ----------
@@ -236,11 +371,7 @@ func c18RunStress(c *c18Case) Result {
 				oracle = fmt.Sprint("panic: ", r)
 			}
 		}()
-		st := middleware.NewRateLimiterMemoryStoreWithConfig(middleware.RateLimiterMemoryStoreConfig{
-			Rate:      rate.Limit(float64(c.RateNum) / float64(c.RateDen)),
-			Burst:     c.Burst,
-			ExpiresIn: time.Duration(c.ExpiresIn),
-		})
+		st := c.sp0().build()
 		frozen := c18Base.Add(time.Duration(c.T0))
 		middleware.VerifSetClock(st, func() time.Time { return frozen })
 		counts := make([]int64, c.StressIDs)
@@ -321,11 +452,7 @@ func c18DriveSkew(c *c18Case) (admitted []bool, order []int, panicked string) {
 			panicked = fmt.Sprint(r)
 		}
 	}()
-	st := middleware.NewRateLimiterMemoryStoreWithConfig(middleware.RateLimiterMemoryStoreConfig{
-		Rate:      rate.Limit(float64(c.RateNum) / float64(c.RateDen)),
-		Burst:     c.Burst,
-		ExpiresIn: time.Duration(c.ExpiresIn),
-	})
+	st := c.sp0().build()
 	var mu sync.Mutex
 	var curCall *c18SkewCall
 	t0 := c.T0
@@ -462,7 +589,7 @@ func c18RunSkew(c *c18Case) Result {
 	span := int64(0)
 	prev := c.T0
 	for _, ev := range c.Evs {
-		if ev.Kind != c18DirectAt || ev.T < prev || ev.Hold < 0 {
+		if ev.Kind != c18DirectAt || ev.T < prev || ev.Hold < 0 || ev.R != 0 {
 			return Result{Tags: []string{"invalid-case"}}
 		}
 		prev = ev.T
@@ -476,7 +603,7 @@ func c18RunSkew(c *c18Case) Result {
 		return Result{Oracle: "panic: " + p, Tags: []string{"panic"}}
 	}
 	// model op: the calls in AllowN order; t = reading under the mutex, tb = AllowN reading (equal)
-	ops := []string{wInt64(c.RateNum), wInt64(c.RateDen), wInt(c.Burst), wInt64(c.ExpiresIn), wInt64(c.T0), wInt(len(order))}
+	ops := []string{"1", wInt64(c.RateNum), wInt64(c.RateDen), wInt(c.Burst), wInt64(c.ExpiresIn), wInt64(c.T0), "0", wInt(len(order))}
 	out := []string{wInt(len(order))}
 	byID := map[string][]int{}
 	var ids []string
@@ -484,8 +611,8 @@ func c18RunSkew(c *c18Case) Result {
 	hwAll := map[string]int64{}
 	for _, i := range order {
 		ev := c.Evs[i]
-		ops = append(ops, wInt64(ev.T), wInt(c18DirectAt), wStr(ev.ID), wInt64(ev.T))
-		out = append(out, wBool(adm[i]), "0")
+		ops = append(ops, wInt64(ev.T), wInt(c18DirectAt), wStr(ev.ID), wInt64(ev.T), "1", "0")
+		out = append(out, wBool(adm[i]), "0", "0")
 		if _, ok := byID[ev.ID]; !ok {
 			ids = append(ids, ev.ID)
 		}
@@ -518,11 +645,11 @@ func c18RunSkew(c *c18Case) Result {
 			beyond = fmt.Sprintf("window: identifier %q: %s", id, w)
 		}
 		sort.Slice(admT, func(a, b int) bool { return admT[a] < admT[b] })
-		if w := c18Window(c, admT, 1); w != "" {
+		if w := c18Window(c.sp0(), admT, 1); w != "" {
 			if skewed == "" {
 				skewed = fmt.Sprintf("window-skew: identifier %q: %s", id, w)
 			}
-		} else if w := c18Window(c, admT, 0); w != "" && noslack == "" {
+		} else if w := c18Window(c.sp0(), admT, 0); w != "" && noslack == "" {
 			noslack = fmt.Sprintf("window-noslack: identifier %q: %s", id, w)
 		}
 	}
@@ -543,7 +670,7 @@ func c18TouchKind(k int) bool { return k == c18Direct || k == c18HTTP }
 
 // window oracle on the admitted instants of one identifier (sorted).  Returns the first
 // window violating the bound with `slack` extra nanoseconds (0 or 1), or "".
-func c18Window(c *c18Case, times []int64, slack int64) string {
+func c18Window(c c18SP, times []int64, slack int64) string {
 	burst := c.effBurst()
 	S := uint64(c.RateDen * c18Second)
 	for i := range times {
@@ -564,7 +691,7 @@ func c18Window(c *c18Case, times []int64, slack int64) string {
 
 // refusal oracle: the request at instant t was refused although `admitted` (instants of the
 // admitted requests of the same identifier so far, sorted) leaves room in every window.
-func c18RefusalUnjustified(c *c18Case, admitted []int64, t int64) bool {
+func c18RefusalUnjustified(c c18SP, admitted []int64, t int64) bool {
 	burst := c.effBurst()
 	if burst == 0 {
 		return false // an empty allowance is always used up
@@ -607,144 +734,223 @@ func c18Oracles(c *c18Case, obs []c18Obs) (v c18Verdict, tags []string, nontrivi
 			v.other = s
 		}
 	}
-	// middleware mapping
+	sps := c.stores()
+	names := []string{"store 0", "store 1"}
+	// middleware mapping: every limiter instance of the route's chain, outermost first, consults ITS
+	// store exactly once; the first refusal answers 429 and nothing behind it is reached; the handler
+	// runs exactly when every instance admitted
 	for i, ev := range c.Evs {
 		o := obs[i]
 		if o.bad != "" {
 			fail(fmt.Sprintf("middleware: event %d: %s", i, o.bad))
 		}
+		chain := c.chain(ev)
+		if len(chain) > 1 {
+			tagset[fmt.Sprintf("chain-%v", chain)] = true
+		}
 		switch ev.Kind {
 		case c18HTTP:
-			if !o.touched {
-				fail(fmt.Sprintf("middleware: event %d: the store was not consulted", i))
-			} else if o.ran != o.admitted {
-				fail(fmt.Sprintf("middleware: event %d: Store.Allow=%v but handler ran=%v", i, o.admitted, o.ran))
-			} else if !o.admitted && o.status != http.StatusTooManyRequests {
-				fail(fmt.Sprintf("middleware: event %d: refused request answered %d, not 429", i, o.status))
-			} else if o.admitted && o.status != http.StatusOK {
-				fail(fmt.Sprintf("middleware: event %d: admitted request answered %d, handler sent 200", i, o.status))
-			}
-		case c18HTTPErr:
-			tagset["extractor-error"] = true
-			if o.ran || o.touched || o.status != http.StatusForbidden {
-				fail(fmt.Sprintf("middleware: event %d: extractor error gave ran=%v store-called=%v status=%d (want 403, nothing else)", i, o.ran, o.touched, o.status))
-			}
-		case c18HTTPSkip:
-			tagset["skipped"] = true
-			if !o.ran || o.touched || o.status != http.StatusOK {
-				fail(fmt.Sprintf("middleware: event %d: skipped request gave ran=%v store-called=%v status=%d", i, o.ran, o.touched, o.status))
-			}
-		}
-	}
-	if !c18Monotone(c) {
-		tagset["non-monotone-clock"] = true
-		for t := range tagset {
-			tags = append(tags, t)
-		}
-		sort.Strings(tags)
-		return v, tags, false
-	}
-	hexp := c.hexp()
-	if !hexp {
-		tagset["no-hexp"] = true
-	}
-	// per identifier
-	ids := []string{}
-	byID := map[string][]int{}
-	for i, ev := range c.Evs {
-		if !c18TouchKind(ev.Kind) {
-			continue
-		}
-		if _, ok := byID[ev.ID]; !ok {
-			ids = append(ids, ev.ID)
-		}
-		byID[ev.ID] = append(byID[ev.ID], i)
-	}
-	if len(ids) > 1 {
-		tagset["multi-id"] = true
-	}
-	exp := c.effExpires()
-	var lastAny int64 = c.T0
-	for _, ev := range c.Evs {
-		if c18TouchKind(ev.Kind) {
-			if ev.T-lastAny > exp {
-				tagset["gap-over-expiresin"] = true
-			}
-			lastAny = ev.T
-		}
-	}
-	for _, id := range ids {
-		var adm []int64
-		sawDeny, admitAfterDeny := false, false
-		var prevT int64 = -1
-		for _, i := range byID[id] {
-			ev, o := c.Evs[i], obs[i]
-			if prevT >= 0 && ev.T-prevT > exp {
-				tagset["return-after-expiry"] = true
-				nontrivial = true
-			}
-			if prevT >= 0 && ev.T-prevT == exp {
-				tagset["return-at-expiry-edge"] = true
-			}
-			prevT = ev.T
-			if o.admitted {
-				if sawDeny {
-					admitAfterDeny = true
-				}
-				adm = append(adm, ev.T)
-			} else {
-				sawDeny = true
-				if hexp && c18RefusalUnjustified(c, adm, ev.T) {
-					fail(fmt.Sprintf("refusal: identifier %q refused at %d ns although no window of its own admitted requests is used up", id, ev.T))
-				}
-			}
-		}
-		if sawDeny {
-			tagset["denied"] = true
-		}
-		if admitAfterDeny {
-			tagset["admit-after-deny"] = true
-			nontrivial = true
-		}
-		if hexp {
-			if w := c18Window(c, adm, 1); w != "" {
-				fail("window: identifier " + fmt.Sprintf("%q: ", id) + w)
-			} else if w := c18Window(c, adm, 0); w != "" {
-				tagset["F11-class"] = true
-				if v.noslack == "" {
-					v.noslack = "window-noslack: identifier " + fmt.Sprintf("%q: ", id) + w
-				}
-			}
-		}
-	}
-	// independence: re-run the real store on each identifier's own traffic
-	if hexp && len(ids) > 1 && v.other == "" {
-		for _, id := range ids {
-			var sub []c18Ev
-			for _, i := range byID[id] {
-				sub = append(sub, c.Evs[i])
-			}
-			so, p := c18Drive(c, sub)
-			if p != "" || len(so) != len(sub) {
-				fail("independence: re-run panicked: " + p)
-				break
-			}
-			for k, i := range byID[id] {
-				if so[k].admitted != obs[i].admitted {
-					fail(fmt.Sprintf("independence: identifier %q, event %d at %d ns: admitted=%v with the other identifiers' traffic, %v without it", id, i, c.Evs[i].T, obs[i].admitted, so[k].admitted))
+			allOK := true
+			pos := 0
+			for _, k := range chain {
+				if pos >= len(o.calls) {
+					fail(fmt.Sprintf("middleware: event %d: the limiter #%d of the route's chain %v (%s) was not consulted although every limiter before it admitted", i, pos, chain, names[k]))
+					allOK = false
 					break
 				}
+				if o.calls[pos].store != k || o.calls[pos].id != ev.ID {
+					fail(fmt.Sprintf("middleware: event %d: call %d went to %s with identifier %q, the chain %v asks for %s with %q", i, pos, names[o.calls[pos].store], o.calls[pos].id, chain, names[k], ev.ID))
+					allOK = false
+					break
+				}
+				pos++
+				if !o.calls[pos-1].ok {
+					allOK = false
+					break
+				}
+			}
+			if v.other == "" && pos < len(o.calls) {
+				fail(fmt.Sprintf("middleware: event %d: %d Store.Allow calls for a chain %v that ends after %d", i, len(o.calls), chain, pos))
 			}
 			if v.other != "" {
 				break
 			}
+			if o.ran != allOK {
+				fail(fmt.Sprintf("middleware: event %d: Store.Allow=%v but handler ran=%v", i, allOK, o.ran))
+			} else if !allOK && o.status != http.StatusTooManyRequests {
+				fail(fmt.Sprintf("middleware: event %d: refused request answered %d, not 429", i, o.status))
+			} else if allOK && o.status != http.StatusOK {
+				fail(fmt.Sprintf("middleware: event %d: admitted request answered %d, handler sent 200", i, o.status))
+			}
+			if len(o.calls) > 0 && !o.calls[len(o.calls)-1].ok && len(o.calls) < len(chain) {
+				tagset["outer-limiter-refused"] = true
+			}
+			if allOK && len(chain) > 1 {
+				tagset["passed-stacked-limiters"] = true
+			}
+			if !allOK && len(o.calls) == len(chain) && len(chain) > 1 {
+				tagset["inner-limiter-refused"] = true
+			}
+		case c18HTTPErr:
+			tagset["extractor-error"] = true
+			if o.ran || len(o.calls) > 0 || o.status != http.StatusForbidden {
+				fail(fmt.Sprintf("middleware: event %d: extractor error gave ran=%v store-called=%v status=%d (want 403, nothing else)", i, o.ran, len(o.calls) > 0, o.status))
+			}
+		case c18HTTPSkip:
+			tagset["skipped"] = true
+			if !o.ran || len(o.calls) > 0 || o.status != http.StatusOK {
+				fail(fmt.Sprintf("middleware: event %d: skipped request gave ran=%v store-called=%v status=%d", i, o.ran, len(o.calls) > 0, o.status))
+			}
+		case c18Direct:
+			if len(o.calls) != 1 {
+				fail(fmt.Sprintf("event %d: direct call recorded %d times", i, len(o.calls)))
+			}
 		}
 	}
-	if c.Burst == 0 {
-		tagset["default-burst"] = true
+	finish := func() {
+		for t := range tagset {
+			tags = append(tags, t)
+		}
+		sort.Strings(tags)
 	}
-	if c.ExpiresIn == 0 {
-		tagset["default-expiresin"] = true
+	if !c18Monotone(c) {
+		tagset["non-monotone-clock"] = true
+		finish()
+		return v, tags, false
+	}
+	// per store: its own call trace
+	traces := make([][]c18Call, len(sps))
+	for _, o := range obs {
+		for _, cl := range o.calls {
+			if cl.store >= 0 && cl.store < len(sps) {
+				traces[cl.store] = append(traces[cl.store], cl)
+			}
+		}
+	}
+	for k, sp := range sps {
+		hexp := sp.hexp()
+		if !hexp {
+			tagset["no-hexp"] = true
+		}
+		pre := ""
+		if len(sps) > 1 {
+			pre = names[k] + ": "
+		}
+		ids := []string{}
+		byID := map[string][]c18Call{}
+		for _, cl := range traces[k] {
+			if _, ok := byID[cl.id]; !ok {
+				ids = append(ids, cl.id)
+			}
+			byID[cl.id] = append(byID[cl.id], cl)
+		}
+		if len(ids) > 1 {
+			tagset["multi-id"] = true
+		}
+		exp := sp.effExpires()
+		var lastAny int64 = c.T0
+		for _, cl := range traces[k] {
+			if cl.t-lastAny > exp {
+				tagset["gap-over-expiresin"] = true
+			}
+			lastAny = cl.t
+		}
+		for _, id := range ids {
+			var adm []int64
+			sawDeny, admitAfterDeny := false, false
+			var prevT int64 = -1
+			for _, cl := range byID[id] {
+				if prevT >= 0 && cl.t-prevT > exp {
+					tagset["return-after-expiry"] = true
+					nontrivial = true
+				}
+				if prevT >= 0 && cl.t-prevT == exp {
+					tagset["return-at-expiry-edge"] = true
+				}
+				prevT = cl.t
+				if cl.ok {
+					if sawDeny {
+						admitAfterDeny = true
+					}
+					adm = append(adm, cl.t)
+				} else {
+					sawDeny = true
+					if hexp && c18RefusalUnjustified(sp, adm, cl.t) {
+						fail(fmt.Sprintf("refusal: %sidentifier %q refused at %d ns although no window of its own admitted requests is used up", pre, id, cl.t))
+					}
+				}
+			}
+			if sawDeny {
+				tagset["denied"] = true
+			}
+			if admitAfterDeny {
+				tagset["admit-after-deny"] = true
+				nontrivial = true
+			}
+			if hexp {
+				if w := c18Window(sp, adm, 1); w != "" {
+					fail("window: " + pre + "identifier " + fmt.Sprintf("%q: ", id) + w)
+				} else if w := c18Window(sp, adm, 0); w != "" {
+					tagset["F11-class"] = true
+					if v.noslack == "" {
+						v.noslack = "window-noslack: " + pre + "identifier " + fmt.Sprintf("%q: ", id) + w
+					}
+				}
+			}
+		}
+		// independence: re-run a fresh real store on each identifier's own traffic
+		if hexp && len(ids) > 1 && v.other == "" {
+			for _, id := range ids {
+				oks, p := c18Replay(sp, c.T0, byID[id])
+				if p != "" || len(oks) != len(byID[id]) {
+					fail("independence: re-run panicked: " + p)
+					break
+				}
+				for j, cl := range byID[id] {
+					if oks[j] != cl.ok {
+						fail(fmt.Sprintf("independence: %sidentifier %q, event %d at %d ns: admitted=%v with the other identifiers' traffic, %v without it", pre, id, cl.ev, cl.t, cl.ok, oks[j]))
+						break
+					}
+				}
+				if v.other != "" {
+					break
+				}
+			}
+		}
+		// isolation: what a store decides is a function of its OWN call history; the other store of the
+		// process and the limiter instances stacked around it have no say (re-run on a fresh store)
+		if len(sps) > 1 && v.other == "" {
+			oks, p := c18Replay(sp, c.T0, traces[k])
+			if p != "" || len(oks) != len(traces[k]) {
+				fail("isolation: re-run panicked: " + p)
+			}
+			for j, cl := range traces[k] {
+				if v.other == "" && oks[j] != cl.ok {
+					fail(fmt.Sprintf("isolation: %sidentifier %q, event %d at %d ns: admitted=%v next to the other store, %v when the same calls are made to a store of its own", pre, cl.id, cl.ev, cl.t, cl.ok, oks[j]))
+				}
+			}
+		}
+		if sp.Burst == 0 {
+			tagset["default-burst"] = true
+		}
+		if sp.ExpiresIn == 0 {
+			tagset["default-expiresin"] = true
+		}
+		if sp.Simple {
+			tagset["ctor-NewRateLimiterMemoryStore(rate)"] = true
+		}
+	}
+	if len(sps) > 1 {
+		tagset["two-stores"] = true
+	}
+	switch c.Ctor {
+	case 1:
+		tagset["ctor-RateLimiter(store)"] = true
+	case 2:
+		tagset["config-with-nil-skipper"] = true
+	}
+	if c.Before {
+		tagset["before-func"] = true
 	}
 	if c.DefaultID {
 		tagset["default-extractor"] = true
@@ -760,18 +966,84 @@ func c18Oracles(c *c18Case, obs []c18Obs) (v c18Verdict, tags []string, nontrivi
 	} else {
 		tagset["arbitrary-stream"] = true
 	}
-	for t := range tagset {
-		tags = append(tags, t)
-	}
-	sort.Strings(tags)
+	finish()
 	return v, tags, nontrivial
+}
+
+// cases take c18Alone for reading; a failing case is run once more with the lock held for
+// writing, i.e. while no other case is running
+var c18Alone sync.RWMutex
+
+func (c *c18Case) valid() bool {
+	if c.Ctor < 0 || c.Ctor > 2 || c.CustomHandlers < 0 || c.CustomHandlers > 2 {
+		return false
+	}
+	for _, sp := range c.stores() {
+		if !sp.valid() {
+			return false
+		}
+	}
+	if c.Ctor == 1 && (!c.DefaultID || c.CustomHandlers != 0 || c.Before) {
+		return false
+	}
+	for _, ev := range c.Evs {
+		if ev.Kind < c18Direct || ev.Kind > c18DirectAt || ev.T < 0 {
+			return false
+		}
+		if c.chain(ev) == nil {
+			return false
+		}
+		if ev.Kind == c18HTTPSkip && c.Ctor != 0 {
+			return false
+		}
+		if ev.Kind == c18HTTPErr && c.DefaultID {
+			return false
+		}
+	}
+	return true
+}
+
+// c18RunNilStore: RateLimiterWithConfig must refuse a configuration without a Store
+func c18RunNilStore(c *c18Case) Result {
+	panicked := false
+	func() {
+		defer func() {
+			if recover() != nil {
+				panicked = true
+			}
+		}()
+		_ = middleware.RateLimiterWithConfig(middleware.RateLimiterConfig{})
+	}()
+	res := Result{Tags: []string{"nil-store"}}
+	if !panicked {
+		res.Oracle = "middleware: RateLimiterWithConfig accepted a configuration without a Store"
+	}
+	return res
 }
 
 func c18Run(ci any) Result {
 	c := ci.(*c18Case)
-	if c.RateDen <= 0 || c.RateNum < 0 || c.Burst < 0 || c.ExpiresIn < 0 {
+	if !c.valid() {
 		return Result{Tags: []string{"invalid-case"}}
 	}
+	if c.NilStore {
+		return c18RunNilStore(c)
+	}
+	c18Alone.RLock()
+	res := c18RunLocked(c)
+	c18Alone.RUnlock()
+	if res.Oracle != "" && !strings.HasPrefix(res.Oracle, "window-noslack: ") && !strings.HasPrefix(res.Oracle, "window-skew: ") && c.StressIDs == 0 {
+		c18Alone.Lock()
+		again := c18RunLocked(c)
+		c18Alone.Unlock()
+		if again.Oracle == "" || strings.HasPrefix(again.Oracle, "window-noslack: ") {
+			res.Oracle += " [only while other cases were running: the case passes when it runs alone, so stores of different cases (separate RateLimiterMemoryStore values) influence each other]"
+		}
+	}
+	return res
+}
+
+func c18RunLocked(c *c18Case) Result {
 	if c.StressIDs > 0 || c.StressG > 0 {
 		return c18RunStress(c)
 	}
@@ -795,16 +1067,33 @@ func c18Run(ci any) Result {
 		res.Oracle = v.noslack
 	}
 	if c.Exact {
-		ops := []string{wInt64(c.RateNum), wInt64(c.RateDen), wInt(c.Burst), wInt64(c.ExpiresIn), wInt64(c.T0), wInt(len(c.Evs))}
-		out := []string{wInt(len(c.Evs))}
-		for i, ev := range c.Evs {
-			ops = append(ops, wInt64(ev.T), wInt(ev.Kind), wStr(ev.ID))
-			out = append(out, wBool(obs[i].ran), wInt(obs[i].status))
-		}
-		res.Ops = strings.Join(ops, " ")
-		res.Obs = strings.Join(out, " ")
+		res.Ops, res.Obs = c18Wire(c, obs)
 	}
 	return res
+}
+
+// the model op line and the observation in the model's format
+func c18Wire(c *c18Case, obs []c18Obs) (string, string) {
+	sps := c.stores()
+	ops := []string{wInt(len(sps))}
+	for _, sp := range sps {
+		ops = append(ops, wInt64(sp.RateNum), wInt64(sp.RateDen), wInt(sp.Burst), wInt64(sp.ExpiresIn))
+	}
+	ops = append(ops, wInt64(c.T0), wBool(c.Before), wInt(len(c.Evs)))
+	out := []string{wInt(len(c.Evs))}
+	for i, ev := range c.Evs {
+		ops = append(ops, wInt64(ev.T), wInt(ev.Kind), wStr(ev.ID))
+		chain := c.chain(ev)
+		if ev.Kind == c18Direct {
+			chain = chain[:1]
+		}
+		ops = append(ops, wInt(len(chain)))
+		for _, k := range chain {
+			ops = append(ops, wInt(k))
+		}
+		out = append(out, wBool(obs[i].ran), wInt(obs[i].status), wInt(obs[i].before))
+	}
+	return strings.Join(ops, " "), strings.Join(out, " ")
 }
 
 // F11: the window bound as stated fails, the bound with 1 ns of slack holds, nothing else
@@ -814,7 +1103,7 @@ func c18Known(ci any, res Result, modelObs string) string {
 	if res.Ops != "" && res.Obs != modelObs {
 		return "" // the model does not reproduce it: something else is going on
 	}
-	if c.StressIDs > 0 || c.StressG > 0 {
+	if c.StressIDs > 0 || c.StressG > 0 || c.NilStore || !c.valid() {
 		return ""
 	}
 	if c.Skew {
@@ -960,19 +1249,170 @@ func c18PickIDs(r *rand.Rand, ipOnly bool) []string {
 	return out
 }
 
-func c18PickKind(r *rand.Rand, defaultID bool) int {
+func c18PickKind(r *rand.Rand, c *c18Case) int {
 	switch x := r.Intn(20); {
 	case x < 9:
 		return c18HTTP
 	case x < 18:
 		return c18Direct
 	case x == 18:
-		if defaultID {
+		if c.DefaultID {
 			return c18HTTP
 		}
 		return c18HTTPErr
 	default:
+		if c.Ctor != 0 {
+			return c18HTTP
+		}
 		return c18HTTPSkip
+	}
+}
+
+// c18Variants: how stores and middleware instances are built (the convenience constructors, a
+// hand-built config with a nil Skipper, BeforeFunc); called before the history is generated
+func c18Variants(r *rand.Rand, c *c18Case) {
+	c.DefaultID = r.Intn(8) == 0
+	if r.Intn(3) == 0 {
+		c.CustomHandlers = 1 + r.Intn(2)
+	}
+	switch r.Intn(10) {
+	case 0: // RateLimiter(store): defaults only
+		c.Ctor, c.DefaultID, c.CustomHandlers = 1, true, 0
+	case 1, 2:
+		c.Ctor = 2
+	}
+	if c.Ctor != 1 && r.Intn(4) == 0 {
+		c.Before = true
+	}
+	if r.Intn(12) == 0 {
+		// NewRateLimiterMemoryStore(rate): burst = int(rate), ExpiresIn = 3 min (ExpiresIn*rate >= burst holds)
+		c.Burst, c.ExpiresIn = 0, 0
+	}
+	if c.Burst == 0 && c.ExpiresIn == 0 && r.Intn(2) == 0 {
+		c.Simple = true
+	}
+}
+
+// c18SecondStore: a second store with other parameters (stricter or more generous), ExpiresIn
+// tight, wider or default, always with ExpiresIn*rate >= burst
+func c18SecondStore(r *rand.Rand, c *c18Case, unit int64) {
+	sp := c18SP{RateDen: c.RateDen}
+	if c.Exact {
+		sp.RateDen = int64(1) << uint(r.Intn(5))
+	} else if r.Intn(2) == 0 {
+		sp.RateDen = []int64{1, 2, 3, 5, 8}[r.Intn(5)]
+	}
+	switch r.Intn(4) {
+	case 0: // strict
+		sp.RateNum = int64(1 + r.Intn(3))
+		sp.Burst = 1 + r.Intn(2)
+	case 1: // generous
+		sp.RateNum = int64(20+r.Intn(200)) * sp.RateDen
+		sp.Burst = 10 + r.Intn(30)
+	default:
+		sp.RateNum = int64(1 + r.Intn(60))
+		sp.Burst = 1 + r.Intn(8)
+	}
+	if r.Intn(6) == 0 {
+		sp.Burst = 0
+	}
+	minExp := ceilDiv(ceilDiv(sp.effBurst()*sp.RateDen*c18Second, sp.RateNum), unit) * unit
+	if minExp == 0 {
+		minExp = unit
+	}
+	switch x := r.Intn(10); {
+	case x < 4:
+		sp.ExpiresIn = minExp
+	case x < 7:
+		sp.ExpiresIn = minExp + int64(r.Intn(4))*unit
+	case x < 9:
+		sp.ExpiresIn = 2*minExp + int64(r.Intn(100))*unit
+	default:
+		sp.ExpiresIn = 0
+		if !sp.hexp() {
+			sp.ExpiresIn = minExp
+		}
+		if sp.Burst == 0 && sp.ExpiresIn == 0 && r.Intn(2) == 0 {
+			sp.Simple = true
+		}
+	}
+	c.S2 = &sp
+}
+
+// c18AssignRoutes: send the requests of a generated history over the routes with one limiter,
+// two stacked limiters with different stores (group + route, or both on the route), or two
+// instances sharing a store; direct calls go to either store
+func c18AssignRoutes(r *rand.Rand, c *c18Case) {
+	mode := r.Intn(4)
+	for i := range c.Evs {
+		ev := &c.Evs[i]
+		direct := ev.Kind == c18Direct
+		if c.S2 == nil {
+			if !direct && r.Intn(2) == 0 {
+				ev.R = 4
+			}
+			continue
+		}
+		switch {
+		case direct:
+			if r.Intn(2) == 0 {
+				ev.R = 2
+			}
+		case mode == 0: // everything through the stacked pair
+			ev.R = 1
+		case mode == 1:
+			ev.R = []int{1, 3}[r.Intn(2)]
+		default:
+			ev.R = r.Intn(5)
+		}
+	}
+}
+
+// c18Probe2: two stores with different parameters in one process.  An identifier spends at one
+// store and stays idle until that store has swept it; then identifiers that are NEW to the other
+// store arrive there with more than its burst (and the same the other way round).
+func c18Probe2(r *rand.Rand, c *c18Case, unit int64, rounds int) {
+	ids := c18PickIDs(r, c.DefaultID)
+	for len(ids) < 3 {
+		ids = append(ids, fmt.Sprintf("10.1.0.%d", 1+r.Intn(200)))
+	}
+	sps := c.stores()
+	t := c.T0 + int64(r.Intn(4))*unit
+	fresh := 0
+	for round := 0; round < rounds; round++ {
+		x := r.Intn(2) // the store that sweeps
+		y := 1 - x
+		rx, ry := []int{0, 2}[x], []int{0, 2}[y]
+		a, b := ids[r.Intn(len(ids))], ids[r.Intn(len(ids))]
+		k := 1 + r.Intn(int(sps[x].effBurst())+2)
+		for i := 0; i < k; i++ {
+			c.Evs = append(c.Evs, c18Ev{T: t, Kind: c18Direct, ID: a, R: rx})
+		}
+		if r.Intn(2) == 0 {
+			c.Evs = append(c.Evs, c18Ev{T: t, Kind: c18Direct, ID: b, R: rx})
+		}
+		t += (sps[x].effExpires() + unit + int64(r.Intn(3))*unit) / unit * unit
+		c.Evs = append(c.Evs, c18Ev{T: t, Kind: c18Direct, ID: ids[r.Intn(len(ids))], R: rx}) // sweeps the idle ones
+		if r.Intn(3) == 0 {
+			t += unit
+		}
+		nNew := 1 + r.Intn(2)
+		for j := 0; j < nNew; j++ {
+			fresh++
+			z := fmt.Sprintf("10.9.%d.%d", round, fresh)
+			kind := c18Direct
+			route := ry
+			if r.Intn(2) == 0 {
+				kind = c18HTTP
+				if y == 1 && r.Intn(2) == 0 {
+					route = 1
+				}
+			}
+			for i := int64(0); i < sps[y].effBurst()+2; i++ {
+				c.Evs = append(c.Evs, c18Ev{T: t, Kind: kind, ID: z, R: route})
+			}
+		}
+		t += int64(r.Intn(3)) * unit
 	}
 }
 
@@ -999,7 +1439,7 @@ func c18History(r *rand.Rand, c *c18Case, unit int64, n int) {
 		case 0, 1, 2: // burst at one instant
 			k := 1 + r.Intn(int(burst)+3)
 			for i := 0; i < k && len(c.Evs) < n; i++ {
-				c.Evs = append(c.Evs, c18Ev{T: t, Kind: c18PickKind(r, c.DefaultID), ID: cur})
+				c.Evs = append(c.Evs, c18Ev{T: t, Kind: c18PickKind(r, c), ID: cur})
 			}
 		case 3, 4: // steady arrivals at the refill interval (or one unit off)
 			k := 1 + r.Intn(6)
@@ -1014,14 +1454,14 @@ func c18History(r *rand.Rand, c *c18Case, unit int64, n int) {
 			}
 			for i := 0; i < k && len(c.Evs) < n; i++ {
 				t += step
-				c.Evs = append(c.Evs, c18Ev{T: t, Kind: c18PickKind(r, c.DefaultID), ID: cur})
+				c.Evs = append(c.Evs, c18Ev{T: t, Kind: c18PickKind(r, c), ID: cur})
 			}
 		case 5: // small random gap
 			t += int64(r.Intn(8)) * unit
 			if unit == 1 {
 				t += int64(r.Intn(int(refill/2 + 2)))
 			}
-			c.Evs = append(c.Evs, c18Ev{T: t, Kind: c18PickKind(r, c.DefaultID), ID: cur})
+			c.Evs = append(c.Evs, c18Ev{T: t, Kind: c18PickKind(r, c), ID: cur})
 		case 6: // idle gap around ExpiresIn
 			switch r.Intn(5) {
 			case 0:
@@ -1037,7 +1477,7 @@ func c18History(r *rand.Rand, c *c18Case, unit int64, n int) {
 			default:
 				t += exp + int64(r.Intn(50))*unit
 			}
-			c.Evs = append(c.Evs, c18Ev{T: t, Kind: c18PickKind(r, c.DefaultID), ID: cur})
+			c.Evs = append(c.Evs, c18Ev{T: t, Kind: c18PickKind(r, c), ID: cur})
 		case 7: // time to refill a few tokens exactly
 			k := int64(1 + r.Intn(int(burst)+2))
 			if c.RateNum > 0 {
@@ -1047,7 +1487,7 @@ func c18History(r *rand.Rand, c *c18Case, unit int64, n int) {
 				}
 				t += d / unit * unit
 			}
-			c.Evs = append(c.Evs, c18Ev{T: t, Kind: c18PickKind(r, c.DefaultID), ID: cur})
+			c.Evs = append(c.Evs, c18Ev{T: t, Kind: c18PickKind(r, c), ID: cur})
 		case 8, 9: // switch identifier
 			cur = ids[r.Intn(len(ids))]
 		case 10:
@@ -1057,14 +1497,14 @@ func c18History(r *rand.Rand, c *c18Case, unit int64, n int) {
 				fill := burst * c.RateDen * c18Second / c.RateNum
 				gap := fill / 8 * int64(1+r.Intn(8)) / unit * unit
 				t += gap
-				c.Evs = append(c.Evs, c18Ev{T: t, Kind: c18PickKind(r, c.DefaultID), ID: cur})
+				c.Evs = append(c.Evs, c18Ev{T: t, Kind: c18PickKind(r, c), ID: cur})
 			} else {
 				cur = ids[r.Intn(len(ids))]
 			}
 		default: // interleave all identifiers at this instant
 			for _, id := range ids {
 				if len(c.Evs) < n {
-					c.Evs = append(c.Evs, c18Ev{T: t, Kind: c18PickKind(r, c.DefaultID), ID: id})
+					c.Evs = append(c.Evs, c18Ev{T: t, Kind: c18PickKind(r, c), ID: id})
 				}
 			}
 		}
@@ -1091,7 +1531,7 @@ func c18Probe(r *rand.Rand, c *c18Case, unit int64, rounds int) {
 		a, b := ids[p[0]], ids[p[1]]
 		k := 1 + r.Intn(int(burst)+2)
 		for i := 0; i < k; i++ {
-			c.Evs = append(c.Evs, c18Ev{T: t, Kind: c18PickKind(r, c.DefaultID), ID: a})
+			c.Evs = append(c.Evs, c18Ev{T: t, Kind: c18PickKind(r, c), ID: a})
 		}
 		var g int64
 		switch r.Intn(9) {
@@ -1122,12 +1562,12 @@ func c18Probe(r *rand.Rand, c *c18Case, unit int64, rounds int) {
 			c.Evs = append(c.Evs, c18Ev{T: t, Kind: c18Direct, ID: b})
 		}
 		t += g
-		c.Evs = append(c.Evs, c18Ev{T: t, Kind: c18PickKind(r, c.DefaultID), ID: b})
+		c.Evs = append(c.Evs, c18Ev{T: t, Kind: c18PickKind(r, c), ID: b})
 		if r.Intn(4) == 0 {
 			t += unit
 		}
 		for i := int64(0); i < burst+2; i++ {
-			c.Evs = append(c.Evs, c18Ev{T: t, Kind: c18PickKind(r, c.DefaultID), ID: a})
+			c.Evs = append(c.Evs, c18Ev{T: t, Kind: c18PickKind(r, c), ID: a})
 		}
 		t += int64(r.Intn(3)) * fill / 2 / unit * unit
 	}
@@ -1195,19 +1635,27 @@ func c18GenExact(r *rand.Rand, big bool) *c18Case {
 		c.ExpiresIn = 3 * c18Tick
 	}
 	c.T0 = int64(r.Intn(1000)) * c18Tick
-	c.DefaultID = r.Intn(8) == 0
-	if r.Intn(3) == 0 {
-		c.CustomHandlers = 1 + r.Intn(2)
-	}
+	c18Variants(r, c)
 	n := 4 + r.Intn(40)
 	if big {
 		n = 20 + r.Intn(200)
 	}
+	two := c.RateNum > 0 && r.Intn(4) == 0
+	if two {
+		c18SecondStore(r, c, c18Tick)
+		if c.hexp() && r.Intn(3) == 0 {
+			c18Probe2(r, c, c18Tick, 1+r.Intn(3))
+			return c
+		}
+	}
 	if r.Intn(4) == 0 {
 		c18Probe(r, c, c18Tick, 1+r.Intn(3))
-		return c
+	} else {
+		c18History(r, c, c18Tick, n)
 	}
-	c18History(r, c, c18Tick, n)
+	if two || r.Intn(6) == 0 {
+		c18AssignRoutes(r, c)
+	}
 	return c
 }
 
@@ -1260,13 +1708,24 @@ func c18GenArbitrary(r *rand.Rand, big bool) *c18Case {
 		}
 	}
 	c.T0 = int64(r.Intn(1000000000))
-	c.DefaultID = r.Intn(8) == 0
-	if r.Intn(3) == 0 {
-		c.CustomHandlers = 1 + r.Intn(2)
-	}
+	c18Variants(r, c)
 	n := 4 + r.Intn(40)
 	if big {
 		n = 20 + r.Intn(150)
+	}
+	if r.Intn(4) == 0 {
+		c18SecondStore(r, c, 1)
+		if r.Intn(3) == 0 {
+			c18Probe2(r, c, 1, 1+r.Intn(3))
+			return c
+		}
+		if r.Intn(4) == 0 {
+			c18Probe(r, c, 1, 1+r.Intn(3))
+		} else {
+			c18History(r, c, 1, n)
+		}
+		c18AssignRoutes(r, c)
+		return c
 	}
 	if r.Intn(4) == 0 {
 		// the F11 pattern: arrivals at floor(i/rate) for one identifier
@@ -1277,7 +1736,7 @@ func c18GenArbitrary(r *rand.Rand, big bool) *c18Case {
 		off := int64(r.Intn(3))
 		for i := int64(0); i < int64(n); i++ {
 			t := c.T0 + off + i*c.RateDen*c18Second/c.RateNum
-			c.Evs = append(c.Evs, c18Ev{T: t, Kind: c18PickKind(r, c.DefaultID), ID: id})
+			c.Evs = append(c.Evs, c18Ev{T: t, Kind: c18PickKind(r, c), ID: id})
 			if r.Intn(6) == 0 {
 				c.Evs = append(c.Evs, c18Ev{T: t, Kind: c18Direct, ID: id})
 			}
@@ -1339,6 +1798,7 @@ func c18Gen(r *rand.Rand, tier string) []any {
 	for i := 0; i < n/20; i++ {
 		out = append(out, c18GenStress(r))
 	}
+	out = append(out, &c18Case{RateNum: 1, RateDen: 1, NilStore: true})
 	return out
 }
 
@@ -1348,10 +1808,39 @@ func c18Shrink(ci any) []any {
 	if c.StressIDs > 0 {
 		return nil // schedule dependent: keep the case as generated
 	}
+	if c.NilStore {
+		return nil
+	}
 	if c.CustomHandlers != 0 {
 		d := *c
 		d.CustomHandlers = 0
 		out = append(out, &d)
+	}
+	if c.Before {
+		d := *c
+		d.Before = false
+		out = append(out, &d)
+	}
+	if c.Ctor == 2 {
+		d := *c
+		d.Ctor = 0
+		out = append(out, &d)
+	}
+	{
+		// everything over the plain route, without the second store
+		changed := c.S2 != nil
+		d := *c
+		d.S2 = nil
+		d.Evs = append([]c18Ev(nil), c.Evs...)
+		for i := range d.Evs {
+			if d.Evs[i].R != 0 {
+				d.Evs[i].R = 0
+				changed = true
+			}
+		}
+		if changed {
+			out = append(out, &d)
+		}
 	}
 	with := func(evs []c18Ev) *c18Case {
 		d := *c
@@ -1387,12 +1876,22 @@ func c18Shrink(ci any) []any {
 			out = append(out, with(evs))
 		}
 	}
-	// simplify kinds
+	// simplify kinds and routes
 	for i, ev := range c.Evs {
-		if ev.Kind != c18Direct && n <= 60 {
+		if ev.Kind != c18Direct && n <= 60 && (ev.R == 0 || ev.R == 2) {
 			evs := append([]c18Ev(nil), c.Evs...)
 			evs[i].Kind = c18Direct
 			out = append(out, with(evs))
+		}
+		if ev.R != 0 && n <= 60 {
+			evs := append([]c18Ev(nil), c.Evs...)
+			evs[i].R = 0
+			out = append(out, with(evs))
+			if ev.R == 1 || ev.R == 3 {
+				evs2 := append([]c18Ev(nil), c.Evs...)
+				evs2[i].R = 2
+				out = append(out, with(evs2))
+			}
 		}
 	}
 	return out
@@ -1401,12 +1900,12 @@ func c18Shrink(ci any) []any {
 func init() {
 	register(&Prop{
 		ID:             "C18",
-		Rule:           "3/5 exact stream (rate k/2^j, instants multiples of 2^-9 s: float64 arithmetic of x/time/rate is exact, decisions compared with the Lean model), 2/5 arbitrary stream (rate p/q, ns instants, incl. the F11 arrival pattern floor(i/rate): oracles only), plus high-rate exact cases where the 1 ns truncation slack shows, plus a skew stream (concurrent Store.Allow goroutines on a clock monotone in start order, some held by channels between their clock reading and AllowN while 1-3 later calls complete: out-of-order readings at the limiter, finding F19; compared with the model in AllowN order and checked against the allowance of C18_skew_bucket), plus a frozen-clock stress stream (4-15 fresh identifiers x 8-31 goroutines released together: at most / exactly burst admissions per identifier on any schedule; oracle only); a third of the middleware cases use custom Deny/ErrorHandlers (writing 429/403 and returning nil, or returning their own HTTPError); 1-4 identifiers (a fifth of the cases: 65-200 byte identifiers sharing their first 64+ bytes, differing only in the last byte, or one a prefix of the other), bursts at one instant, arrivals at/next to the refill interval, idle gaps at ExpiresIn-1,+0,+1 unit and beyond (cleanup), returns after being forgotten; ExpiresIn tight (=burst/rate), wider, default, or (exact stream only, tie only) violating ExpiresIn*rate>=burst; requests direct to Store.Allow or through RateLimiterWithConfig (extractor error, skipper, default RealIP extractor); non-trivial = some identifier is admitted again after a refusal, or returns after a gap longer than ExpiresIn; distinct = distinct model op lines / cases",
+		Rule:           "3/5 exact stream (rate k/2^j, instants multiples of 2^-9 s: float64 arithmetic of x/time/rate is exact, decisions compared with the Lean model), 2/5 arbitrary stream (rate p/q, ns instants, incl. the F11 arrival pattern floor(i/rate): oracles only), plus high-rate exact cases where the 1 ns truncation slack shows, plus a skew stream (concurrent Store.Allow goroutines on a clock monotone in start order, some held by channels between their clock reading and AllowN while 1-3 later calls complete: out-of-order readings at the limiter, finding F19; compared with the model in AllowN order and checked against the allowance of C18_skew_bucket), plus a frozen-clock stress stream (4-15 fresh identifiers x 8-31 goroutines released together: at most / exactly burst admissions per identifier on any schedule; oracle only); a third of the middleware cases use custom Deny/ErrorHandlers (writing 429/403 and returning nil, or returning their own HTTPError); 1-4 identifiers (a fifth of the cases: 65-200 byte identifiers sharing their first 64+ bytes, differing only in the last byte, or one a prefix of the other), bursts at one instant, arrivals at/next to the refill interval, idle gaps at ExpiresIn-1,+0,+1 unit and beyond (cleanup), returns after being forgotten; ExpiresIn tight (=burst/rate), wider, default, or (exact stream only, tie only) violating ExpiresIn*rate>=burst; requests direct to Store.Allow or through the middleware (extractor error, skipper, default RealIP extractor); the middleware instances are built with RateLimiterWithConfig (with Skipper, or a hand-built config with nil Skipper; a quarter with a counted BeforeFunc) or with the convenience constructor RateLimiter(store); stores with NewRateLimiterMemoryStoreWithConfig or NewRateLimiterMemoryStore(rate); a quarter of the cases have a SECOND store with other parameters in the same process and send the requests over routes behind one limiter, a coarse limiter on the group + a strict one on the route, two limiters on one route in the other order, or two instances sharing one store (a sixth of the single-store cases use that route too), with direct calls to either store, plus a two-store expiry probe (an identifier is swept at one store, then first-time identifiers arrive at the other store with more than its burst); the Allow calls of every store are recorded: window / refusal / independence per store on its own trace, isolation = the decisions of every store re-run on a store of its own, middleware = the chain is consulted in order, each instance once, nothing behind the first refusal; one case per run checks that a config without Store is refused; non-trivial = some identifier is admitted again after a refusal, or returns after a gap longer than ExpiresIn; distinct = distinct model op lines / cases",
 		New:            func() any { return &c18Case{} },
 		Gen:            c18Gen,
 		Run:            c18Run,
 		Shrink:         c18Shrink,
 		Known:          c18Known,
-		Correspondence: "C18.run (lean/EchoModel/C18.lean) vs middleware.RateLimiterMemoryStore.Allow + RateLimiterWithConfig on the injected clock",
+		Correspondence: "C18.runC / C18.stepC / C18.chainAllow (lean/EchoModel/C18.lean; one store: C18.run) vs middleware.RateLimiterMemoryStore.Allow + RateLimiter / RateLimiterWithConfig instances on the injected clock",
 	})
 }
